@@ -235,3 +235,104 @@ def _r3_return_to_else(block):
         return None
     new_if_body = block[if_open:m.start()] + ret_expr + ' }'
     return block[:if_open] + new_if_body + ' else { ' + rest.strip() + ' }' + block[j:]
+
+
+# ---------------------------------------------------------------------------------------------
+# R6: float operators -> named ops (scoring helpers only)
+def r6_floats(text, log, base_line, item_name, extra_float_vars=()):
+    """Rewrite f64 arithmetic into calls of named ops (to_f64, fmul, fdiv, fsub, fmin, fmax, fpowf, flt, fgt).
+    Float variables are discovered to a fixpoint from their initialisers; operators are rewritten only when both
+    operands are float atoms, so integer arithmetic is untouched. Anything left over is rejected by Verus
+    (unsupported construct -> the function is reported as outside the verifier's reach, never silently accepted)."""
+    orig = text
+    fvars = set(extra_float_vars)
+    FLOAT_MARK = r'(\bas\s+f64\b|\bf64\s*::\s*MAX\b|\b\d+\.\d+\b|\.\s*as_secs_f64\s*\(|\bto_f64\s*\(|\bf(?:mul|div|sub|min|max|powf)\s*\()'
+    changed = True
+    while changed:
+        changed = False
+        for m in re.finditer(r'\blet\s+(?:mut\s+)?(%s)\s*(?::\s*f64\s*)?=\s*' % ID, text):
+            name = m.group(1)
+            if name in fvars:
+                continue
+            # initialiser: up to the ';' closing this let (bracket aware)
+            i = m.end()
+            depth = 0
+            j = i
+            while j < len(text):
+                c = text[j]
+                if c in '([{':
+                    depth += 1
+                elif c in ')]}':
+                    depth -= 1
+                elif c == ';' and depth == 0:
+                    break
+                j += 1
+            init = text[i:j]
+            if re.search(FLOAT_MARK, init) or any(re.search(r'\b%s\b' % re.escape(v), init) for v in fvars):
+                # an initialiser that is a plain integer expression mentioning no float marker is not float
+                if re.search(FLOAT_MARK, init) or re.search(r'[*/]|-', init) or re.fullmatch(r'\s*%s\s*' % ID, init) or 'if' in init or 'match' in init:
+                    fvars.add(name)
+                    changed = True
+    # 1. constants and casts
+    text = re.sub(r'\bf64\s*::\s*MAX\b', 'f64_max()', text)
+    text = re.sub(r'(?<![\w.])1\.0\b', 'f_one()', text)
+    text = re.sub(r'(?<![\w.])0\.0\b', 'f_zero()', text)
+    CALL = r'\([^()]*\)'
+    for _depth in range(5):
+        CALL = r'\((?:[^()]|%s)*\)' % CALL
+    CALL = '(?:%s)' % CALL
+    PATH = r'(?:%s(?:\s*\.\s*(?:%s|\d+)(?:\s*%s)?)*)' % (ID, ID, CALL)
+    text = re.sub(r'(%s|%s)\s+as\s+f64\b' % (PATH, CALL), lambda m: 'to_f64(%s as u64)' % m.group(1), text)
+    text = re.sub(r'(%s)\s*\.\s*as_secs_f64\s*\(\s*\)' % PATH, lambda m: 'dur_as_secs_f64(%s)' % m.group(1), text)
+    # 2. binary operators / methods on float atoms, to a fixpoint
+    fv = '|'.join(sorted(map(re.escape, fvars), key=len, reverse=True)) or r'\b\B'
+    FCALL = r'(?:(?:to_f64|fmul|fdiv|fsub|fmin|fmax|fpowf|f64_max|f_one|f_zero|dur_as_secs_f64)\s*%s)' % CALL
+    ATOM = r'(?:%s|(?<![\w.])(?:%s)\b(?!\s*[.(])|%s)' % (FCALL, fv, CALL)
+    def is_float_atom(a):
+        a = a.strip()
+        if re.fullmatch(FCALL, a) or re.fullmatch(r'(?:%s)' % fv, a):
+            return True
+        if a.startswith('(') and a.endswith(')'):
+            inner = a[1:-1]
+            return bool(re.search(r'\b(?:to_f64|fmul|fdiv|fsub|fmin|fmax|fpowf|f_one|f_zero|f64_max|dur_as_secs_f64)\s*\(', inner) or re.search(r'\b(?:%s)\b' % fv, inner))
+        return False
+    for _ in range(200):
+        before = text
+        # methods first (highest precedence)
+        ATOM_M = r'(?:%s|(?<![\w.])(?:%s)\b|%s)' % (FCALL, fv, CALL)
+        m = re.search(r'(%s)\s*\.\s*(min|max|powf)\s*(%s)' % (ATOM_M, CALL), text)
+        if m and is_float_atom(m.group(1)):
+            arg = m.group(3)[1:-1]
+            text = text[:m.start()] + 'f%s(%s, %s)' % (m.group(2), _unparen(m.group(1)), arg.strip()) + text[m.end():]
+            continue
+        done = False
+        for ops, names in ((r'[*/]', {'*': 'fmul', '/': 'fdiv'}), (r'-', {'-': 'fsub'}), (r'[<>]', {'<': 'flt', '>': 'fgt'})):
+            for m in re.finditer(r'(%s)\s*(%s)(?![=>])\s*(%s)' % (ATOM, ops, ATOM), text):
+                if is_float_atom(m.group(1)) and is_float_atom(m.group(3)):
+                    # do not split a larger product on the right of a lower-precedence operator
+                    text = text[:m.start()] + '%s(%s, %s)' % (names[m.group(2)], _unparen(m.group(1)), _unparen(m.group(3))) + text[m.end():]
+                    done = True
+                    break
+            if done:
+                break
+        if text == before:
+            break
+    if text != orig:
+        log.append(dict(rule='R6.floats', line=base_line, old='f64 arithmetic on {%s}' % ', '.join(sorted(fvars)), new='named float ops (to_f64/fmul/fdiv/fsub/fmin/fmax/fpowf/flt/fgt)', item=item_name))
+    return text
+
+
+def _unparen(a):
+    a = a.strip()
+    if a.startswith('(') and a.endswith(')'):
+        # only strip when the parentheses enclose the whole atom
+        depth = 0
+        for i, c in enumerate(a):
+            if c == '(':
+                depth += 1
+            elif c == ')':
+                depth -= 1
+                if depth == 0 and i != len(a) - 1:
+                    return a
+        return a[1:-1].strip()
+    return a
